@@ -6,18 +6,19 @@
 // direct property oracles (oracle.txt).
 //
 // case kinds
-//   SC  real MakeSecretConnection pair; after the handshake the harness is the wire: it
-//       collects the sealed frames of each Write, applies an edit script (keep, drop, dup,
-//       swap, flip, garbage, insert, replay, reflect, truncate, close) and hands the result
-//       to the reader; reads with random buffer sizes.  Single-threaded, deterministic.
-//   SW  two goroutines Write concurrently on one SecretConnection.
-//   HS  handshakes against honest and dishonest peers (ideal-signature projection).
-//   TP  real p2p.MultiplexTransport dials / accepts against honest peers, impostor listeners and
-//       dishonest raw peers (external half: verif_c20x_test.go, package conn_test).
-//   MD  packetiser stepped deterministically (trySendBytes / sendPacketMsg), packets fed to a
-//       real started MConnection.
-//   MR  crafted packet streams (arbitrary interleavings, mutations) fed to a real MConnection.
-//   MX  real MConnection pair over pipes with a recording tap, concurrent senders.
+//
+//	SC  real MakeSecretConnection pair; after the handshake the harness is the wire: it
+//	    collects the sealed frames of each Write, applies an edit script (keep, drop, dup,
+//	    swap, flip, garbage, insert, replay, reflect, truncate, close) and hands the result
+//	    to the reader; reads with random buffer sizes.  Single-threaded, deterministic.
+//	SW  two goroutines Write concurrently on one SecretConnection.
+//	HS  handshakes against honest and dishonest peers (ideal-signature projection).
+//	TP  real p2p.MultiplexTransport dials / accepts against honest peers, impostor listeners and
+//	    dishonest raw peers (external half: verif_c20x_test.go, package conn_test).
+//	MD  packetiser stepped deterministically (trySendBytes / sendPacketMsg), packets fed to a
+//	    real started MConnection.
+//	MR  crafted packet streams (arbitrary interleavings, mutations) fed to a real MConnection.
+//	MX  real MConnection pair over pipes with a recording tap, concurrent senders.
 package conn
 
 import (
